@@ -26,6 +26,20 @@ def checkCase (j : Json) : Except String Verdict := do
       i := i + 1
     return v.br "stores"
   | none => pure ()
+  -- the ciphers of one process sealing and opening side by side
+  match (j.getObjVal? "parallel").toOption with
+  | some pj =>
+    let mut v : Verdict := { nontrivial := true }
+    let cnt (k : String) : Int := (pj.getObjVal? k).toOption.bind (·.getInt?.toOption) |>.getD 0
+    let fst (k : String) : String := ((j.getObjVal? "first").toOption.bind (·.getObjVal? k |>.toOption)).bind (·.getStr?.toOption) |>.getD ""
+    for k in ["sealError", "rejected", "wrong", "crossed", "panics"] do
+      v := v.cmp 0 s!"parallel.{k}" (0 : Int) (cnt k) ["C02"]
+      if cnt k != 0 then v := v.mon "C02" "round_trip" 0 s!"ciphers working side by side: {k} ×{cnt k}, first: {fst k}"
+    v := v.cmp 0 "parallel.opensOther" (0 : Int) (cnt "opensOther") ["C02"]
+    if cnt "opensOther" != 0 then v := v.mon "C02" "opens_under_other_key" 0 s!"ciphers working side by side ×{cnt "opensOther"}"
+    if cnt "crossed" != 0 then v := v.mon "C02" "opens_under_other_key" 0 s!"a value sealed by one cipher opened as the other cipher's plaintext: {fst "crossed"}"
+    return v.br "parallel"
+  | none => pure ()
   let genuine ← jhexArr j "genuine"
   let vars ← jarr j "variants"
   let mut v : Verdict := {}
